@@ -160,6 +160,23 @@ mut("proccl_bne_target", "examples/ex03_proc/ProcCL.py",
     "              s.redirected_pc_DXM = pc + zext(inst.b_imm, 32)", ["C20"])
 
 
+mut("resolve_parents_propagatable", "pymtl3/dsl/ComponentLevel3.py",
+    "        obj = obj.get_parent_object()\n        while obj.is_signal():\n          writer_prop[ obj ] = False\n          obj = obj.get_parent_object()",
+    "        obj = obj.get_parent_object()\n        while obj.is_signal():\n          writer_prop[ obj ] = True\n          obj = obj.get_parent_object()",
+    ["C08", "C09"])
+mut("field_name_omits_list_index", "pymtl3/dsl/Connectable.py",
+    "            xd.full_name   = f\"{sd.full_name}.{name}\"+\"\".join([ f\"[{y}]\" for y in indices ])",
+    "            xd.full_name   = f\"{sd.full_name}.{name}\"", ["C14", "C08"])
+mut("slice_of_slice_no_offset", "pymtl3/dsl/Connectable.py",
+    "      start += outer_start\n      stop  += outer_start\n", "      start += 0\n      stop  += 0\n", ["C14", "C08", "C01"])
+mut("net_sibling_overlap_ignored", "pymtl3/dsl/ComponentLevel3.py",
+    "                if obj.slice_overlap( v ):\n                  if obj in writer_prop and writer_prop[ obj ]:",
+    "                if obj.slice_overlap( v ) and False:\n                  if obj in writer_prop and writer_prop[ obj ]:", ["C08"])
+mut("net_writer_first_member", "pymtl3/dsl/ComponentLevel3.py",
+    "            if v in writer_prop or isinstance( v, Const ):\n              assert not has_writer",
+    "            if v in writer_prop or isinstance( v, Const ):\n              if has_writer: continue", ["C08", "C09"])
+
+
 def load_extra():
   p = os.path.join(VERIF, "tools", "mutants_extra.json")
   if os.path.exists(p):
